@@ -4,16 +4,21 @@ michelson/types/big_map.py, context/impl.py, michelson/instructions/jupyter.py, 
 Extracted (nothing is guessed; an unrecognised body gives `none` and a failed status line):
   * snapshot          how `Interpreter.execute` takes its backup: `separateMemos` (two independent `deepcopy` calls —
                       the pinned shape) or `sharedMemoContextFirst` (one `memo`, the context copied before the stack),
-                      and that the handler restores both `self.stack` and `self.context` for
+                      and that the handler restores both the stack and `self.context` for
                       (MichelsonParserError, MichelsonRuntimeError)
+  * restore           how the handler puts the stack back: `replaceStack` (`self.stack = stack_backup`: the live
+                      `MichelsonStack` object, with whatever `protected` prefix it had when the cell raised, is dropped)
+                      or `itemsOnly` (`self.stack.items = stack_backup.items`: the live object and its `protected`
+                      counter stay)
   * deepcopyContext   what `BigMapType.__deepcopy__` does with `context`: `keep` (returns `self.duplicate()`, the
                       pinned shape) or `memoLookup` (`memodict.get(id(self.context), self.context)`)
   * duplicateKeeps    `BigMapType.duplicate` copies items / removed keys and keeps `ptr` and `context`
   * contextCopy       `ExecutionContext` defines no `__deepcopy__` / `__reduce__` (a deep copy is a fresh object with
                       copied fields) and `__copy__` raises
-  * stackShape / instrShape   `MichelsonStack` and the cell alphabet's Jupyter instructions (BEGIN, COMMIT, RUN,
-                      DROP_ALL, BIG_MAP_DIFF, EMPTY_BIG_MAP, DUP, storage / parameter / code sections) have the
-                      transcribed bodies
+  * stackShape / instrShape   `MichelsonStack` (`__init__`, protect, restore, push, peek, pop, clear), the cell
+                      alphabet's instructions (BEGIN, COMMIT, RUN, DROP_ALL, BIG_MAP_DIFF, PATCH, EMPTY_BIG_MAP, DUP, DUP n,
+                      DROP n, DIG, DUG, DIP, DIP n, `execute_dip`, AMOUNT, BALANCE, NOW, SENDER, SOURCE, the storage /
+                      parameter / code sections) and the context getters they call have the transcribed bodies
 The big_map facts of C15 (`Generated/C15.lean`) are regenerated as well: the session model executes UPDATE / GET
 through the same mirror."""
 import ast
@@ -34,7 +39,7 @@ def execute(self, code):
     except (MichelsonParserError, MichelsonRuntimeError) as e:
         if self.context.debug:
             raise
-        self.stack = stack_backup
+        %s
         self.context = context_backup
         result.stdout.append(e.format_stdout())
         result.error = e
@@ -45,6 +50,9 @@ SNAP_SEPARATE = '''stack_backup = deepcopy(self.stack)
 SNAP_SHARED = '''memo = {}
     context_backup = deepcopy(self.context, memo)
     stack_backup = deepcopy(self.stack, memo)'''
+
+RESTORE_REPLACE = 'self.stack = stack_backup'
+RESTORE_ITEMS = 'self.stack.items = stack_backup.items'
 
 DEEPCOPY_KEEP = '''
 def __deepcopy__(self, memodict):
@@ -68,6 +76,9 @@ def __copy__(self):
 '''
 
 STACK = {
+    '__init__': 'def __init__(self, items=None):\n    self.items = items or []\n    self.protected = 0',
+    'protect': "def protect(self, count):\n    if len(self.items) < count:\n        raise Exception(f'got {len(self.items)} items on the stack, want to protect {count}')\n    self.protected += count",
+    'restore': "def restore(self, count):\n    if self.protected < count:\n        raise Exception(f'want to restore {count} items, but only {self.protected} are protected')\n    self.protected -= count",
     'push': 'def push(self, item):\n    self.items.insert(self.protected, item)',
     'peek': "def peek(self):\n    if not self.items:\n        raise Exception('stack is empty')\n    return self.items[self.protected]",
     'pop': "def pop(self, count):\n    if len(self.items) - self.protected < count:\n        raise Exception(f'got {len(self.items) - self.protected} items on the stack, want to pop {count}')\n    return [self.items.pop(self.protected) for _ in range(count)]",
@@ -152,6 +163,136 @@ def execute(cls, stack, stdout, context):
     stdout.append(format_stdout(cls.prim, [res], [res, res]))
     return cls(stack_items_added=1)
 ''',
+    ('instructions/stack.py', 'DupnInstruction'): '''
+def execute(cls, stack, stdout, context):
+    depth = cls.args[0].get_int() - 1
+    stack.protect(count=depth)
+    top = stack.peek()
+    res = top.duplicate()
+    stack.restore(count=depth)
+    stack.push(res)
+    stdout.append(format_stdout(cls.prim, [*Wildcard.n(depth), res], [res, *Wildcard.n(depth), res], depth))
+    return cls(stack_items_added=1)
+''',
+    ('instructions/stack.py', 'DropnInstruction'): '''
+def execute(cls, stack, stdout, context):
+    count = cls.args[0].get_int()
+    dropped = stack.pop(count=count)
+    stdout.append(format_stdout(cls.prim, dropped, [], count))
+    return cls()
+''',
+    ('instructions/stack.py', 'DigInstruction'): '''
+def execute(cls, stack, stdout, context):
+    depth = cls.args[0].get_int()
+    stack.protect(count=depth)
+    res = stack.pop1()
+    stack.restore(count=depth)
+    stack.push(res)
+    stdout.append(format_stdout(cls.prim, [*Wildcard.n(depth), res], [res, *Wildcard.n(depth)], depth))
+    return cls(stack_items_added=1)
+''',
+    ('instructions/stack.py', 'DugInstruction'): '''
+def execute(cls, stack, stdout, context):
+    depth = cls.args[0].get_int()
+    res = stack.pop1()
+    stack.protect(count=depth)
+    stack.push(res)
+    stack.restore(count=depth)
+    stdout.append(format_stdout(cls.prim, [res, *Wildcard.n(depth)], [*Wildcard.n(depth), res], depth))
+    return cls(stack_items_added=1)
+''',
+    ('instructions/control.py', 'DipInstruction'): '''
+def execute(cls, stack, stdout, context):
+    item = execute_dip(cls.prim, stack, stdout, count=1, body=cls.args[0], context=context)
+    return cls(item)
+''',
+    ('instructions/control.py', 'DipnInstruction'): '''
+def execute(cls, stack, stdout, context):
+    depth = cls.args[0].get_int()
+    item = execute_dip(cls.prim, stack, stdout, count=depth, body=cls.args[1], context=context)
+    return cls(item)
+''',
+    ('instructions/jupyter.py', 'PatchInstruction'): '''
+def execute(cls, stack, stdout, context):
+    res_type = cls.args[0]
+    if res_type.prim == 'AMOUNT':
+        context.amount = None
+    elif res_type.prim == 'BALANCE':
+        context.balance = None
+    elif res_type.prim == 'CHAIN_ID':
+        context.chain_id = None
+    elif res_type.prim == 'SENDER':
+        context.sender = None
+    elif res_type.prim == 'SOURCE':
+        context.source = None
+    elif res_type.prim == 'NOW':
+        context.now = None
+    else:
+        raise ValueError(f'Expected one of {cls.allowed_primitives}, got {res_type.prim}')
+    return cls()
+''',
+    ('instructions/jupyter.py', 'PatchValueInstruction'): '''
+def execute(cls, stack, stdout, context):
+    res_type, literal = cls.args
+    if res_type.prim == 'AMOUNT':
+        context.amount = literal.get_int()
+    elif res_type.prim == 'BALANCE':
+        context.balance = literal.get_int()
+    elif res_type.prim == 'CHAIN_ID':
+        context.chain_id = literal.get_string()
+    elif res_type.prim == 'SENDER':
+        context.sender = literal.get_string()
+    elif res_type.prim == 'SOURCE':
+        context.source = literal.get_string()
+    elif res_type.prim == 'NOW':
+        try:
+            context.now = literal.get_int()
+        except (TypeError, MichelsonRuntimeError):
+            context.now = int(strict_rfc3339.rfc3339_to_timestamp(literal.get_string()))
+    else:
+        raise ValueError(f'Expected one of {cls.allowed_primitives}, got {res_type.prim}')
+    return cls()
+''',
+    ('instructions/tezos.py', 'AmountInstruction'): '''
+def execute(cls, stack, stdout, context):
+    amount = context.get_amount()
+    res = MutezType.from_value(amount)
+    stack.push(res)
+    stdout.append(format_stdout(cls.prim, [], [res]))
+    return cls(stack_items_added=1)
+''',
+    ('instructions/tezos.py', 'BalanceInstruction'): '''
+def execute(cls, stack, stdout, context):
+    balance = context.get_balance()
+    res = MutezType.from_value(balance)
+    stack.push(res)
+    stdout.append(format_stdout(cls.prim, [], [res]))
+    return cls(stack_items_added=1)
+''',
+    ('instructions/tezos.py', 'NowInstruction'): '''
+def execute(cls, stack, stdout, context):
+    now = context.get_now()
+    res = TimestampType.from_value(now)
+    stack.push(res)
+    stdout.append(format_stdout(cls.prim, [], [res]))
+    return cls(stack_items_added=1)
+''',
+    ('instructions/tezos.py', 'SenderInstruction'): '''
+def execute(cls, stack, stdout, context):
+    sender = context.get_sender()
+    res = AddressType.from_value(sender)
+    stack.push(res)
+    stdout.append(format_stdout(cls.prim, [], [res]))
+    return cls(stack_items_added=1)
+''',
+    ('instructions/tezos.py', 'SourceInstruction'): '''
+def execute(cls, stack, stdout, context):
+    source = context.get_source()
+    res = AddressType.from_value(source)
+    stack.push(res)
+    stdout.append(format_stdout(cls.prim, [], [res]))
+    return cls(stack_items_added=1)
+''',
     ('sections/storage.py', 'StorageSection'): '''
 def execute(cls, stack, stdout, context):
     context.set_storage_expr(cls.as_micheline_expr())
@@ -166,6 +307,54 @@ def execute(cls, stack, stdout, context):
 def execute(cls, stack, stdout, context):
     context.set_code_expr(cls.as_micheline_expr())
     stdout.append(f'code: updated')
+''',
+}
+
+
+EXECUTE_DIP = '''
+def execute_dip(prim, stack, stdout, count, body, context):
+    stdout.append(format_stdout(prim, [*Wildcard.n(count)], []))
+    stack.protect(count=count)
+    item = body.execute(stack, stdout, context=context)
+    stack.restore(count=count)
+    stdout.append(format_stdout(prim, [], [*Wildcard.n(count)], count))
+    return item
+'''
+
+# the getters behind AMOUNT / BALANCE / NOW / SENDER / SOURCE (context/impl.py, `ExecutionContext`)
+CTX_GETTERS = {
+    'get_amount': 'def get_amount(self):\n    return self.amount or 0',
+    'get_sender': 'def get_sender(self):\n    return self.sender or self.get_dummy_key_hash()',
+    'get_source': 'def get_source(self):\n    return self.source or self.get_dummy_key_hash()',
+    'get_now': '''
+def get_now(self):
+    if self.now is not None:
+        return self.now
+    elif self.shell:
+        ts = self.shell.head.header()['timestamp']
+        dt = datetime.strptime(ts, '%Y-%m-%dT%H:%M:%SZ')
+        first_delay = self.shell.head.context.constants().get('minimal_block_delay', 0)
+        return int((dt - datetime(1970, 1, 1)).total_seconds()) + int(first_delay)
+    else:
+        return 0
+''',
+    'get_balance': '''
+def get_balance(self):
+    if self.balance is not None:
+        balance = self.balance
+    elif self.shell:
+        contract = self.shell.contracts[self.get_self_address()]()
+        balance = int(contract['balance'])
+    else:
+        balance = 0
+    return balance + self.balance_update
+''',
+    'get_dummy_key_hash': '''
+def get_dummy_key_hash(self):
+    if self.key:
+        return self.key.public_key_hash()
+    else:
+        return base58_encode(b'\\x00' * 20, b'tz1').decode()
 ''',
 }
 
@@ -189,8 +378,9 @@ def classify_execute(fn):
         return None
     got = norm(fn)
     for snap, name in ((SNAP_SEPARATE, 'separateMemos'), (SNAP_SHARED, 'sharedMemoContextFirst')):
-        if got == canon(EXECUTE_FRAME % snap):
-            return name
+        for rest, rname in ((RESTORE_REPLACE, 'replaceStack'), (RESTORE_ITEMS, 'itemsOnly')):
+            if got == canon(EXECUTE_FRAME % (snap, rest)):
+                return name, rname
     return None
 
 
@@ -201,14 +391,21 @@ def gen_c22(status):
         status[f'C15 {name}'] = v
 
     rep = find_func(find_class(parse('michelson/repl.py'), 'Interpreter'), 'execute')
-    snap = classify_execute(rep)
-    status['Interpreter.execute snapshot/restore shape'] = (snap is not None, snap or 'unrecognised body: ' + ast.unparse(rep)[:400])
+    shape = classify_execute(rep)
+    snap, rest = shape or (None, None)
+    status['Interpreter.execute snapshot/restore shape'] = (shape is not None, '/'.join(shape) if shape else 'unrecognised body: ' + ast.unparse(rep)[:400])
     out.append('/-- how `Interpreter.execute` copies stack and context before running a cell -/\n'
                'inductive Snapshot\n'
                '  | separateMemos            -- `deepcopy(self.stack)`; `deepcopy(self.context)`: two independent copies\n'
                '  | sharedMemoContextFirst   -- one `memo`: `deepcopy(self.context, memo)` then `deepcopy(self.stack, memo)`\n'
                '  deriving DecidableEq, Repr\n')
     out.append(f'def snapshot : Option Snapshot := {"some ." + snap if snap else "none"}\n')
+    out.append('/-- how the handler of `Interpreter.execute` puts the stack back when a cell raises -/\n'
+               'inductive Restore\n'
+               '  | replaceStack   -- `self.stack = stack_backup`: the live stack object (and its `protected` counter) is dropped\n'
+               '  | itemsOnly      -- `self.stack.items = stack_backup.items`: the live stack object keeps its `protected` counter\n'
+               '  deriving DecidableEq, Repr\n')
+    out.append(f'def restore : Option Restore := {"some ." + rest if rest else "none"}\n')
 
     bm = find_class(parse('michelson/types/big_map.py'), 'BigMapType')
     dc = find_func(bm, '__deepcopy__')
@@ -236,14 +433,19 @@ def gen_c22(status):
          'defines ' + ', '.join(special) if special else '')
     st = find_class(parse('michelson/stack.py'), 'MichelsonStack')
     bad = [n for n, ref in STACK.items() if not _same(find_func(st, n), ref)]
-    flag('MichelsonStack push/peek/pop/clear', 'stackShape', not bad, 'the stack primitives have the transcribed bodies',
+    flag('MichelsonStack __init__/protect/restore/push/peek/pop/clear', 'stackShape', not bad, 'the stack primitives have the transcribed bodies',
          'unrecognised: ' + ', '.join(bad))
     bad = []
     for (rel, cls), ref in INSTR.items():
         fn = find_func(find_class(parse('michelson/' + rel), cls), 'execute')
         if not _same(fn, ref) and not any(_same(fn, alt) for alt in INSTR_ALT.get(cls, ())):
             bad.append(cls)
+    if not _same(find_func(parse('michelson/instructions/control.py'), 'execute_dip'), EXECUTE_DIP):
+        bad.append('execute_dip')
+    bad += [n for n, ref in CTX_GETTERS.items() if not _same(find_func(ctx, n), ref)]
     flag('cell alphabet instruction bodies', 'instrShape', not bad,
-         'BEGIN, COMMIT, RUN, DROP_ALL, BIG_MAP_DIFF, EMPTY_BIG_MAP, DUP and the storage / parameter / code sections',
+         'BEGIN, COMMIT, RUN, DROP_ALL, BIG_MAP_DIFF, PATCH, EMPTY_BIG_MAP, DUP, DUP n, DROP n, DIG, DUG, DIP, DIP n (`execute_dip`: '
+         'protect, body, restore, no try/finally), AMOUNT, BALANCE, NOW, SENDER, SOURCE with their context getters, and the '
+         'storage / parameter / code sections',
          'unrecognised: ' + ', '.join(bad))
     return '\n'.join(out)
